@@ -111,6 +111,9 @@ func TestC01Rapid(t *testing.T) {
 		l := &harness.Live{Property: "C01", Check: "C01/select-set", Doc: doc, Ctx: ctx, AST: p, Expr: xast.Render(p), Flavour: flavourOf(rt)}
 		info, f := oracleC01(l)
 		if f != nil {
+			if inconclusive(uC01Rapid, f) {
+				return
+			}
 			harness.Report(rt, uC01Rapid, l, f)
 		}
 		for _, s := range p.Steps {
@@ -224,6 +227,10 @@ func TestC01Enum(t *testing.T) {
 							l := &harness.Live{Property: "C01", Check: "C01/select-set", Doc: d, Ctx: ctx, AST: p, Expr: expr}
 							info, f := oracleC01(l)
 							if f != nil {
+								if inconclusive(uC01Enum, f) {
+									total++
+									continue
+								}
 								harness.Report(t, uC01Enum, l, f)
 							}
 							total++
